@@ -20,7 +20,8 @@ def run_case(run, drv, files, pl, single, tag):
         for kind in ("a3", "hy"):
             out = os.path.join(box, kind + ".torrent")
             try:
-                raw = impl.create(kind, root, out, piece_length=pl)
+                spelled, prog = cr.variant(run.rng, root, single)
+                raw = impl.create(kind, spelled, out, piece_length=pl, progress=prog)
             except Exception as exc:
                 run.fail("impl-vs-spec", dict(case, creator=kind), {"raised": repr(exc)})
                 continue
